@@ -2195,3 +2195,25 @@ def ar1(F, R):
                 R.ok(fn, "looked-at", "%s * %s" % tuple(tstr(fn.term_of_operand(o, b))[:40] for o in t["ops"]), fn.loc(b))
     R.require(control, None, "control", "positive control lost: (cluster - 2) * blocks_per_cluster in FatVolume::cluster_to_block is no longer recognised as a product of two run-time values")
     R.require(n >= 25, None, "sites", "expected >= 25 checked multiplications in the crate, found %d" % n)
+
+
+@rule("OE1", ["C02", "C01"], floor=4,
+      doc="what the medium holds can be opened: open_file_in_dir refuses no entry because of a valid combination of its length and first-cluster fields. For each own Err exit of open_file_in_dir the tests on the looked-up entry's .size and .cluster are decided for the valid combinations (0, none) (0, a cluster: what truncation leaves behind) (n, a cluster) (4 GiB - 1, a cluster) (n, the first data cluster); an Err exit that can be reached for one valid combination and not for another is a refusal that depends on those fields alone, i.e. a valid file this library wrote itself and any FAT reader lists cannot be opened any more")
+def oe1(F, R):
+    from .specialise import specialise_joint
+    fn = F.fn(VM + "::open_file_in_dir")
+    fields = lambda q: [e for e in q[2] if isinstance(e, str) and e != "*"] if q[0] == "place" else []
+    is_size = lambda q: fields(q)[-1:] == ["size"]
+    is_clu = lambda q: fields(q)[-2:] == ["cluster", "0"]
+    used = [(gb, gi) for (gb, gi, g) in all_guards(fn) if has_sub(g.term, is_size) or has_sub(g.term, is_clu)]
+    errs = err_returns(fn, adt="Error")
+    R.require(len(errs) >= 3, fn, "sites", "expected the refusals of open_file_in_dir (at least 3 Err exits), found %d" % len(errs), fn.loc(0))
+    combos = [(0, 0), (0, 5), (1, 5), (513, 5), (0xFFFFFFFF, 5), (100, 2), (0, 2), (70000, 0x0FFFFFF0)]
+    reach = {}
+    for (sz, cl) in combos:
+        cut = specialise_joint(fn, [(is_size, sz), (is_clu, cl)]) if used else []
+        reach[(sz, cl)] = fn.reach([0], cut_edges=cut)
+    for x in errs:
+        yes = [c for c in combos if x[0] in reach[c]]
+        no = [c for c in combos if x[0] not in reach[c]]
+        R.require(not (yes and no), fn, "refusal-by-length-or-cluster:%s" % x[2], "open_file_in_dir answers Err(%s) for an entry with (length, first cluster) = %s but not for %s: all of these are valid entries (an emptied file keeps its first cluster), the refusal makes files on the medium unreachable" % (x[2], yes[:3], no[:3]), fn.loc(x[0]))
